@@ -310,7 +310,10 @@ def history_case(ctx, rng, P):
         return
     h, w = r
     sections_equal(ctx, data, w, info, "unedited", [f])
-    consistency(ctx, w, m, [f], "unedited")
+    if not m.get("lodrec_junk"):
+        consistency(ctx, w, m, [f], "unedited")      # (an unedited file with stale LOD-record copies is written back with them)
+    else:
+        ctx.stats.classes["lod-record-offset-copies:stale"] += 1
     size_changing = False
     out = ctx.path("e.mdl"); dump = ctx.path("e.dump")
     for step in range(nsteps):
